@@ -47,7 +47,7 @@ Print Assumptions C10E_history_from.
 
 (** every prefix of every history from the empty table and the empty SAD *)
 Theorem C10E_history : forall E cf sec evs1 evs2,
-  let ep0 := mk_ep E [] 0 cf sec [] 0 [] [] None in
+  let ep0 := mk_ep E [] 0 cf sec [] 0 [] [] None None in
   run_ok E ep0 [] (evs1 ++ evs2) -> EInv E (run E ep0 evs1) (run_sad E ep0 [] evs1).
 Proof. exact history_inv. Qed.
 Print Assumptions C10E_history.
